@@ -14,7 +14,7 @@ OM = world.goodwe.OperationMode
 HOSTS = ('10.0.0.2', '10.0.0.3')
 
 OPS = ['read_runtime_data', 'read_eco_1', 'read_scalar', 'write_scalar', 'write_eco', 'set_eco_charge', 'get_mode',
-       'sensor_ids', 'setting_ids']
+       'sensor_ids', 'setting_ids', 'read_optional']
 
 
 def snap(v):
@@ -44,12 +44,16 @@ def make_device(kind, variant):
         if kind == 'ETnobat':
             d.refused = [(37000, 37023), (39000, 39021), (35301, 35361), (36045, 36124)]
             et_device_info(d, serial=b'9010KETU000W0000', rated=25000)
+        if kind == 'ETrej':
+            d.refused = [(47500, 47500)]
         if kind == 'ETbad':
             d.rf.setbytes(47547, bytes([99] * 12))    # stored group 1 is undecodable
         return 'ET', d
-    if kind == 'DT':
+    if kind.startswith('DT'):
         d = ModbusDevice(0x7F, fill=(lambda a: (a * 13 + 5) % 3000) if variant == 0 else (lambda a: (a * 29 + 77) % 4000))
-        dt_device_info(d)
+        dt_device_info(d, serial=b'9003KDSN000W0000' if kind == 'DT1' else b'9010KDTU000W0000')
+        if kind == 'DTrej':
+            d.refused = [(40362, 40362)]
         return 'DT', d
     d = EsDevice(firmware=b'2222E' if kind == 'ESv2' else b'1414E')
     for i in range(len(d.runtime)):
@@ -81,6 +85,8 @@ def do_op(inv, fam, op):
         return inv.set_operation_mode(OM.ECO_CHARGE, 45, 80)
     if op == 'get_mode':
         return inv.get_operation_mode()
+    if op == 'read_optional':
+        return inv.read_setting({'ET': 'battery_soc_protection', 'DT': 'shadow_scan_pv3', 'ES': 'backup_supply'}[fam])
     if op in ('sensor_ids', 'setting_ids'):
         async def ids():
             return [x.id_ for x in (inv.sensors() if op == 'sensor_ids' else inv.settings())]
@@ -175,7 +181,8 @@ def run_pair(kinds, seqs, ctx, solo=None, transport='udp'):
 
     async def setup():
         for i in (0, 1):
-            await invs[i].read_device_info()
+            if solo is None or solo == i:      # alone means alone: the other object does not even identify itself
+                await invs[i].read_device_info()
 
     async def main():
         await setup()
@@ -254,7 +261,8 @@ def job(j):
     return st
 
 
-PAIRS = [('ET', 'ET'), ('ET745', 'ET'), ('ETbad', 'ET745'), ('ETnobat', 'ET'), ('ET', 'ESv2'), ('ET', 'DT'), ('ES', 'ES'), ('ETv1', 'ES'), ('ET745', 'ESv2')]
+PAIRS = [('ET', 'ET'), ('ET745', 'ET'), ('ETbad', 'ET745'), ('ETnobat', 'ET'), ('ETv1', 'ET'), ('ETrej', 'ET'),
+         ('DT', 'DT1'), ('DTrej', 'DT'), ('DT1', 'DT1'), ('ES', 'ESv2'), ('ET', 'ESv2'), ('ET', 'DT'), ('ES', 'ES'), ('ETv1', 'ES'), ('ET745', 'ESv2')]
 
 
 def run(tier, seed, rep):
